@@ -64,11 +64,25 @@ type Srv struct {
 	Pending string                  // the operation in flight (written to the trace by a crash point that kills the process)
 	seen    map[string]bool         // oracle rows already written
 	Seeded  bool                    // the directory was installed with a statistics history (C20X)
+
+	chunkedNext bool // the next HTTP request sends its body chunked
 }
 
 func NewSrv(name string, seed uint64, t *Trace) (*Srv, error) {
 	s := &Srv{T: t, Keys: map[glow.PublicKey]bool{}, seen: map[string]bool{}, Full: os.Getenv("VERIF_FULLSNAP") == "1"}
-	e := &Env{Dir: freshDir(name), Temp: detKey(seed, 1000), GCA: detKey(seed, 1001), HoldBG: true}
+	gca := detKey(seed, 1001)
+	if seed%8 == 6 {
+		// a GCA key whose last byte is a line break, a blank or zero: the key file holds 32 raw bytes, not text
+		for j := 0; j < 4000; j++ {
+			k := detKey(seed, 5000+j)
+			if b := k.Pub[31]; b == 0x0a || b == 0x0d || b == 0x20 || b == 0x00 {
+				gca = k
+				t.Count("gca-key-ends-in-a-text-delimiter")
+				break
+			}
+		}
+	}
+	e := &Env{Dir: freshDir(name), Temp: detKey(seed, 1000), GCA: gca, HoldBG: true}
 	if err := prepareServerDir(e.Dir, e.Temp.Pub); err != nil {
 		return nil, err
 	}
@@ -274,6 +288,44 @@ func (s *Srv) DgramUDP(d []byte, marker []byte) {
 	s.T.Count("dgram-udp:" + obs)
 	s.T.Line("srv.dgram now=%d d=%s => %s", now, hx(d), obs)
 	s.emit(fmt.Sprintf("srv.dgram now=%d d=%s", now, hx(marker)), mobs)
+}
+
+// DgramUDPPlain sends one datagram through the real UDP socket and nothing after it, and waits (on the
+// listener's own counters) until it has been dealt with.
+func (s *Srv) DgramUDPPlain(d []byte) string {
+	now := glow.CurrentTimeslot()
+	_, _, udp := s.E.S.Ports()
+	if len(d) >= 80 {
+		id := binary.LittleEndian.Uint32(d[0:4])
+		r, _ := glow.DeserializeReport(d[:80])
+		if ea, ok := s.E.S.VerifSnapshot().Equipment[id]; ok {
+			s.oracle(ea.PublicKey, r.SigningBytes(), r.Signature)
+		}
+	}
+	before := fileLen(s.E.Dir + "/equipment-reports.dat")
+	r0 := atomic.LoadInt64(&udpReceived)
+	glow.SendUDPReport(d, fmt.Sprintf("127.0.0.1:%d", udp))
+	done := false
+	for i := 0; i < 3000 && !done; i++ {
+		rc := atomic.LoadInt64(&udpReceived)
+		if rc >= r0+1 && atomic.LoadInt64(&udpIter)-iter0 == rc-rcv0+1 && atomic.LoadInt64(&udpHandled) == atomic.LoadInt64(&udpLaunched) {
+			done = true
+		} else {
+			time.Sleep(time.Millisecond)
+		}
+	}
+	if !done {
+		s.T.Line("# udp datagram lost on loopback; skipped")
+		s.Lost = true
+		return "lost"
+	}
+	obs := "dropped"
+	if fileLen(s.E.Dir+"/equipment-reports.dat") > before {
+		obs = "stored"
+	}
+	s.T.Count("dgram-udp-plain:" + obs)
+	s.emit(fmt.Sprintf("srv.dgram now=%d d=%s", now, hx(d)), obs)
+	return obs
 }
 
 var udpReceived, udpLaunched, udpHandled, udpIter int64
@@ -513,6 +565,11 @@ func (s *Srv) AuthServer(as server.AuthorizedServer) string {
 	} else if st == 200 {
 		obs = "ok"
 	}
+	s.authServerEmit(as, obs)
+	return obs
+}
+
+func (s *Srv) authServerEmit(as server.AuthorizedServer, obs string) {
 	b := 0
 	if as.Banned {
 		b = 1
@@ -520,7 +577,6 @@ func (s *Srv) AuthServer(as server.AuthorizedServer) string {
 	s.T.Count("authserver:" + obs)
 	s.emit(fmt.Sprintf("srv.authserver e=%s key=%s banned=%d loc=%s http=%d tcp=%d udp=%d sig=%s",
 		hx(encodeIfShort(as)), hx(as.PublicKey[:]), b, hx([]byte(as.Location)), as.HttpPort, as.TcpPort, as.UdpPort, hx(as.GCAAuthorization[:])), obs)
-	return obs
 }
 
 func encodeIfShort(as server.AuthorizedServer) []byte {
@@ -702,8 +758,20 @@ func (s *Srv) Servers() string {
 
 // HTTP sends a request that no handler can accept. Only two things are observed: that it is answered
 // at all (net/http turns a handler panic into a closed connection) and the state afterwards.
+// HTTPChunked is HTTP with a body of undeclared length (Transfer-Encoding: chunked, no Content-Length).
+func (s *Srv) HTTPChunked(method, path string, body []byte) string {
+	s.chunkedNext = true
+	return s.HTTP(method, path, body)
+}
+
 func (s *Srv) HTTP(method, path string, body []byte) string {
-	req, err := http.NewRequest(method, s.E.url(path), bytes.NewReader(body))
+	var rd io.Reader = bytes.NewReader(body)
+	if s.chunkedNext {
+		rd = struct{ io.Reader }{bytes.NewReader(body)}
+		s.chunkedNext = false
+		s.T.Count("http:chunked-body")
+	}
+	req, err := http.NewRequest(method, s.E.url(path), rd)
 	obs := "answered"
 	status := 0
 	if err != nil {
